@@ -40,3 +40,6 @@ type verifSignalOwner struct {
 func verifBind(ws *wakeSignal, id int64) {
 	verifSignals.Store(ws.id, verifSignalOwner{client: id, ws: ws})
 }
+
+// names of the "event received" schedule points of a connection's event loop, by state
+var verifCxnTake = [...]string{"cxn.take.none", "cxn.take.init", "cxn.take.wait", "cxn.take.disp", "cxn.take.term"}
